@@ -42,6 +42,28 @@ def check_sigma_floor(P, R):
             vc = cone(du, v, du.stmt_of(st), interproc=False)
             if vc.has_attr("variance_floor"):
                 clamps.append(du.stmt_of(st))
+    # the clamp in a helper of the package: `floor_in_place(machine.sigma, machine.variance_floor)` whose body stores the floor
+    # parameter into the elements of the array parameter that compare below it (or returns / stores maximum(array, floor))
+    for cnode in [x for x in walk_no_nested(f.node) if isinstance(x, ast.Call)]:
+        try:
+            kind_, fexpr_, args_, kws_ = P.peel_call(cnode, f)
+            tg_ = [t_[1] for t_ in P.resolve_callee(fexpr_, f) if t_[0] == "repo"]
+        except Exception:
+            tg_ = []
+        for callee in tg_[:1]:
+            b_ = P.bind_args(callee, args_, kws_)
+            arr_p = [p_ for p_, a_ in b_.items() if isinstance(a_, ast.Attribute) and a_.attr == "sigma" and isinstance(a_.value, ast.Name) and a_.value.id == mp]
+            flo_p = [p_ for p_, a_ in b_.items() if a_ is not None and any(isinstance(y, ast.Attribute) and y.attr == "variance_floor" for y in ast.walk(a_))]
+            if not arr_p or not flo_p:
+                continue
+            cdu = get_defuse(callee, P)
+            for cs, ct, cv, ck in stores(callee):
+                if isinstance(ct, ast.Subscript) and isinstance(ct.value, ast.Name) and ct.value.id == arr_p[0] and ck == "assign":
+                    ic = cone(cdu, ct.slice, cdu.stmt_of(cs), interproc=False)
+                    vc = cone(cdu, cv, cdu.stmt_of(cs), interproc=False)
+                    below = any(isinstance(n_, ast.Compare) and len(n_.ops) == 1 and ((isinstance(n_.ops[0], (ast.Lt, ast.LtE)) and isinstance(n_.left, ast.Name) and n_.left.id == arr_p[0]) or (isinstance(n_.ops[0], (ast.Gt, ast.GtE)) and isinstance(n_.comparators[0], ast.Name) and n_.comparators[0].id == arr_p[0])) for n_ in ic.nodes)
+                    if below and flo_p[0] in ic.params and flo_p[0] in vc.params:
+                        clamps.append(du.stmt_of(cnode))
     if not sig:
         R.note("ivector:m_step does not update sigma")
         return
